@@ -212,6 +212,13 @@ def run_master_case(case):
         t['return_value'] = None
         return t
 
+    from radical.pilot.agent.executing.base import AgentExecutingComponent
+    executor = AgentExecutingComponent.__new__(AgentExecutingComponent)
+    executor._log, executor._prof = boot.LOG, boot.PROF
+    executor.advance = lambda *a, **k: None          # the task's own state advance is not the subject
+    executor.publish = lambda topic, msg: net.publish(
+        m._reg['bridges.%s' % topic]['addr_pub'], topic, msg)
+
     def deliver_worker(uids):
         uids = [u for u in uids if u in out_worker]
         if not uids:
@@ -230,11 +237,17 @@ def run_master_case(case):
         out_exec.remove(uid)
         done.append(uid)
         t = result_dict(uid)
-        t['state'] = rps.AGENT_STAGING_OUTPUT_PENDING
-        # what AgentExecutingComponent.advance_tasks publishes for raptor tasks
+        # the executor hands the request on through its real advance_tasks (which reports tasks
+        # of a raptor master back to it): after execution as AGENT_STAGING_OUTPUT_PENDING, after a
+        # launch failure (no exit code, exception recorded) as FAILED
+        state = rps.FAILED if info[uid]['exit'] is None else rps.AGENT_STAGING_OUTPUT_PENDING
+        t['state'] = state
+        t.setdefault('origin', 'client')
         n0 = len(net.log)
-        net.publish(m._reg['bridges.%s' % rpc.STATE_PUBSUB]['addr_pub'],
-                    rpc.STATE_PUBSUB, {'cmd': 'raptor_state_update', 'arg': [t]})
+        try:
+            executor.advance_tasks(t, state, publish=True, push=(state != rps.FAILED))
+        except Exception as e:       # noqa
+            res.fail(exc_sig('advance_tasks_raised', e), repr(e))
         for ev in net.log[n0:]:
             if ev[0] == 'cb_error':
                 res.fail(exc_sig('state_cb_raised', ev[3]), repr(ev[3]))
